@@ -45,6 +45,7 @@ class Script:
         self.kb: Any = NONE  # pre-hook fault
         self.ka: Any = NONE  # post-hook fault
         self.zpost: Any = None  # value the post-solution hook stores into Z at t (None: the hook writes nothing)
+        self.ypre: Any = None   # value the PRE-solution hook stores into the first check variable at t (None: nothing)
 
 
 def check_names(N: int) -> List[str]:
@@ -96,6 +97,8 @@ def make_scripted(N: int, *, with_z: bool = False, with_x: bool = True, base=Non
                 warnings.warn('scripted pre-hook warning', RuntimeWarning)
             if kb == HOOK_WARN_USER:
                 warnings.warn('scripted pre-hook warning (UserWarning)', UserWarning)
+            if N >= 1 and s.ypre is not None:
+                self.__dict__['_Y0'][t] = s.ypre     # a pre-solution calculation that changes a CHECK variable
             st['log'].append(('before_done', iteration))
 
         def solve_t_after(self, t, *, errors='raise', catch_first_error=True, iteration=None, **kwargs):
@@ -270,6 +273,10 @@ def ref_solve_t(
         return fail_exc('SolutionError', 'RuntimeWarning')
     if _tb(script.kb == HOOK_WARN_USER) and strict:
         return fail_exc('SolutionError', 'UserWarning')
+    if N >= 1 and script.ypre is not None:
+        # the pre-solution hook may write a check variable; pass 1 is still measured from the values the period held
+        # on entry (`base` above), which is how "moved since the previous pass" reads for k = 1
+        cells[check[0]][tc] = script.ypre
 
     def finish_fail(k: int) -> Outcome:
         o.status, o.iters = 'F', k
